@@ -74,6 +74,7 @@ type Exec struct {
 	pending  []core.Violation
 	unknownBal map[string]string
 	invPrev  map[string]string
+	committed map[int64]map[string]map[string]string // height -> store -> key -> value (committed content)
 	prevAbs  string
 }
 
@@ -243,7 +244,7 @@ func Execute(tr *Trace) (res *core.Result, err error) {
 
 func executeOnce(tr *Trace) (res *core.Result, err error) {
 	e := &Exec{tr: tr, res: &core.Result{Stats: core.NewStats()}, log: sha256.New(), acctOf: map[string]int{}, times: map[int64]int64{},
-		txBytes: map[[2]int][]byte{}, txSpecs: map[[2]int]TxSpec{}, txIndex: map[string]bool{}, poolGifts: new(big.Int), sigSeen: map[string]bool{}, unknownBal: map[string]string{}, invPrev: map[string]string{}}
+		txBytes: map[[2]int][]byte{}, txSpecs: map[[2]int]TxSpec{}, txIndex: map[string]bool{}, poolGifts: new(big.Int), sigSeen: map[string]bool{}, unknownBal: map[string]string{}, invPrev: map[string]string{}, committed: map[int64]map[string]map[string]string{}}
 	defer func() {
 		rpcclient.SimTxLookup = nil
 		core.ClearMapSeed()
@@ -767,6 +768,9 @@ func (e *Exec) oneReadOnly(r *replica, ro *ReadOnly, h int64) {
 		var resp abci.ResponseQuery
 		p = e.call(r, func() { resp = r.app.Query(abci.RequestQuery{Path: ro.Path, Data: data, Height: ro.Height, Prove: ro.Prove}) })
 		e.logf("h%d r%d query %s code=%d len=%d", h, r.idx, ro.Path, resp.Code, len(resp.Value))
+		if p == nil {
+			e.checkStoreQuery(r, ro, data, resp, h)
+		}
 	}
 	e.res.Stats.C("readonly_"+ro.Kind, 1)
 	if p != nil {
@@ -1061,6 +1065,17 @@ func (e *Exec) commit(bi int, rec *blockRecord, h int64) {
 	if e.reps[0].halted == "" {
 		st := e.snapshot0("Commit", "")
 		e.checkState(st, "Commit", "", h)
+		if st != nil {
+			cm := map[string]map[string]string{}
+			for name, kvs := range st.Raw {
+				m := map[string]string{}
+				for _, kv := range kvs {
+					m[string(kv.K)] = string(kv.V)
+				}
+				cm[name] = m
+			}
+			e.committed[h] = cm
+		}
 		// C12 through BaseApp: Info reports the committed height and hash
 		info := e.reps[0].app.Info(abci.RequestInfo{})
 		if info.LastBlockHeight != h || !bytes.Equal(info.LastBlockAppHash, canonHash) {
